@@ -56,6 +56,8 @@ class DC:
         self.l2_at_31 = True
         self.reply_pad_extra = 0  # extra 16-byte blocks of auth padding (still conforming)
         self.reply_pad: t.Optional[int] = None  # exact auth padding to use (None = minimal 16-byte alignment); may misalign the trailer
+        self.reply_pad_fill = 0  # value of the auth padding octets (a receiver must not look at them)
+        self.reply_alloc_hint = "padded"  # alloc_hint convention of sealed replies: padded | unpadded | zero | 16 | max (it is only a hint)
         self.envelope_override: t.Optional[t.Callable[[gkdi.Envelope], gkdi.Envelope]] = None
         self.server_tokens: t.List[bytes] = [b"S-TOKEN-1", b"S-TOKEN-2", b"S-TOKEN-3", b"S-TOKEN-4"]
         self.server_legs = 1  # scripted context: number of server tokens before it is complete
@@ -321,10 +323,11 @@ class Conn:
         pad = -len(reply_stub) % 16 + 16 * self.dc.reply_pad_extra
         if self.dc.reply_pad is not None:
             pad = self.dc.reply_pad
-        body = reply_stub + b"\x00" * pad
+        body = reply_stub + bytes([self.dc.reply_pad_fill]) * pad
         sig_len = self.ctx.query_message_sizes().header
         total = 24 + len(body) + 8 + sig_len
-        hdr = rpc.header(rpc.RESPONSE, 3, total, sig_len, d["call_id"]) + struct.pack("<IHBB", len(body), d["ctx_id"], 0, 0)
+        hint = {"padded": len(body), "unpadded": len(reply_stub), "zero": 0, "16": 16, "max": 2**32 - 1}[self.dc.reply_alloc_hint]
+        hdr = rpc.header(rpc.RESPONSE, 3, total, sig_len, d["call_id"]) + struct.pack("<IHBB", hint, d["ctx_id"], 0, 0)
         trailer = struct.pack("<BBBBI", self.auth_type, self.auth_level, pad, 0, 0)
         ty = siov.BufferType.sign_only if self.sign_header else siov.BufferType.data_readonly
         res = self.ctx.wrap_iov([(ty, hdr), body, (ty, trailer), siov.BufferType.header], encrypt=True, qop=None)
